@@ -286,3 +286,38 @@ def fix_families():
                     lines = ["# Title", ""] + _wrap(outer, items)
                     out.append(("fixfam/%s/%s/%s/%s" % (hn, outer, tn, sn), "\n".join(lines) + "\n"))
     return out
+
+
+# ---- repetition families: the same construct three times (rules that remember what they saw; reports must stay unique) ----
+REPEAT_BLOCKS = {
+    "quote": "> quote %d", "bullet": "- item %d", "ordered": "1. item %d", "atx": "# heading %d", "setext": "Heading %d\n---",
+    "fence": "```text\ncode %d\n```", "icode": "    code %d", "hr": "---", "html": "<div>\nhtml %d\n</div>", "para": "paragraph %d",
+    "lrd": "[ref%d]: /url%d",
+}
+
+
+def repeat_families():
+    """fixed list of (name, text)"""
+    def inst(tpl, k):
+        return tpl.replace("%d", str(k))
+
+    def wrap(w, text):
+        ls = text.split("\n")
+        if w == "bq":
+            return "\n".join(("> " + l) if l else ">" for l in ls)
+        if w == "li":
+            return "\n".join((("- " if i == 0 else "  ") + l) if l else "" for i, l in enumerate(ls))
+        return text
+    out = []
+    for kn, tpl in sorted(REPEAT_BLOCKS.items()):
+        for sn, sep in (("1blank", "\n\n"), ("2blank", "\n\n\n"), ("0blank", "\n")):
+            body = sep.join(inst(tpl, k) for k in (1, 2, 3))
+            for w in ("top", "bq", "li"):
+                out.append(("repeat/%s/%s/%s" % (kn, sn, w), "# Title\n\n" + wrap(w, body) + "\n"))
+    names = sorted(REPEAT_BLOCKS)
+    for a in names:
+        for b in names:
+            if a != b:
+                body = "\n\n".join((inst(REPEAT_BLOCKS[a], 1), inst(REPEAT_BLOCKS[b], 2), inst(REPEAT_BLOCKS[a], 3)))
+                out.append(("repeat/%s-%s-%s" % (a, b, a), "# Title\n\n" + body + "\n"))
+    return out
